@@ -222,7 +222,68 @@ def check_c12(tier, seed):
     shutil.rmtree(wd, ignore_errors=True)
     return 1 if nviol else 0
 
+def check_c18(tier, seed):
+    """C18: Tlv.tla round-trip theorems on all short byte strings (exhaustive); the real codec in both builds on
+    those strings and on structurally generated streams, judged by TlvTrace.tla."""
+    from . import tlvgen
+    t0 = time.time()
+    pid = "C18"
+    wd = f"{VERIF}/work/C18_{tier}"
+    shutil.rmtree(wd, ignore_errors=True); os.makedirs(wd)
+    run.cargo_build(); run.cargo_build("wrap")
+    thorough = tier == "thorough"
+    g, d, _ = tlc_plain("TlvMC.tla", "TlvMC.cfg" if not thorough else "TlvMCBig.cfg", wd)
+    vs = tlvgen.vectors(seed, 120000 if thorough else 14000, 5 if thorough else 4)
+    with open(wd + "/v.ndjson", "w") as f:
+        for v in vs:
+            f.write(json.dumps(v) + "\n")
+    bad = []; n = 0; samples = []
+    chunks = run.split(vs, 8)
+    for prof in ("debug", "wrap"):
+        outs = []
+        for k, ch in enumerate(chunks):
+            i = f"{wd}/v_{prof}{k}.ndjson"; o = f"{wd}/o_{prof}{k}.ndjson"
+            with open(i, "w") as f:
+                for v in ch:
+                    f.write(json.dumps(v) + "\n")
+            p = subprocess.run([f"{VERIF}/target/harness/{prof}/vfh", "tlv", i, o], capture_output=True, text=True)
+            if p.returncode != 0:
+                raise run.ToolError("vfh tlv failed: " + p.stderr[-1000:])
+            outs.append(o)
+        from concurrent.futures import ThreadPoolExecutor
+        with ThreadPoolExecutor(max_workers=8) as ex:
+            res = list(ex.map(lambda ko: (ko[1],) + run.tlc_trace("TlvTrace.tla", "TlvTrace.cfg", ko[1], f"{wd}/tt{prof}{ko[0]}"), enumerate(outs)))
+        for o, rc, out in res:
+            done = [l for l in out.splitlines() if "TLVDONE" in l]
+            if not done:
+                raise run.ToolError("TlvTrace did not finish:\n" + out[-2000:])
+            lines = open(o).read().splitlines()
+            n += len(lines)
+            samples.append(json.loads(lines[len(lines) // 2]))
+            for l in out.splitlines():
+                if "TLVVIOL" in l:
+                    idx = int(l.split(",")[1])
+                    bad.append(json.loads(lines[idx - 1]))
+    os.makedirs(REPLAYS, exist_ok=True)
+    for k, rec in enumerate(bad[:3]):
+        p = f"{REPLAYS}/C18_vec{k}.json"
+        json.dump({"property": pid, "kind": "tlv", "record": rec}, open(p, "w"))
+        print(f"VIOLATION property=C18 replay={p}")
+    cov = {"states": d, "transitions": g, "traces_validated_against_impl": n, "samples": samples[:4],
+           "vectors_per_build": len(vs), "builds": ["overflow-checks", "wrapping"], "exhaustive": False,
+           "rule": "Tlv.tla: round-trip theorems on ALL byte strings up to the bound over an alphabet containing every BigSize "
+                   "prefix and boundary byte (exhaustive); real codec: the same strings through both entry points, structurally "
+                   "generated valid streams (every BigSize width/boundary), truncation at every offset, non-canonical encodings, "
+                   "tu64 of every length 0-12, in both builds; each call judged by TlvTrace.tla"}
+    write_evidence(pid, tier, seed, "model_checking", cov, time.time() - t0, len(bad),
+                   ["BOLT 1 validity as written in Tlv.tla (canonical BigSize, strictly increasing types)",
+                    "decoded records are read from the derived Debug output of SerializedTlvStream (its fields are private)"])
+    shutil.rmtree(wd, ignore_errors=True)
+    return 1 if bad else 0
+
 def check(pid, tier, seed):
+    if pid == "C18":
+        return check_c18(tier, seed)
     if pid == "C12":
         return check_c12(tier, seed)
     if pid in life.LIFE:
